@@ -39,6 +39,16 @@ TIE = 1e-9                                # guard no_tie
 # =========================================================================================
 # TLC configurations
 # =========================================================================================
+def tick(ctx, label):
+    """wall time per phase, reported in the evidence (phase_s)"""
+    import time
+    now = time.time()
+    last = getattr(ctx, "_bp_last", ctx.t0)
+    ph = ctx.extra.setdefault("phase_s", {})
+    ph[label] = round(ph.get(label, 0.0) + now - last, 2)
+    ctx._bp_last = now
+
+
 def tla_set(xs):
     return "{" + ",".join(json.dumps(x) if isinstance(x, str) else str(x) for x in xs) + "}"
 
@@ -665,7 +675,7 @@ def mirror_sync_max(ctx, inst):
     ctx.count("mirror_sync")
 
 
-def check_real_maximization(ctx, pid, inp_name, ts, fit, eps, mu, space, instance):
+def check_real_maximization(ctx, pid, inp_name, ts, fit, eps, mu, space, instance, report=True):
     """The documented rule on a real maximization fit: grid points, ordered along edges, and
     every choice in the arg-max set that the mirror computes from the real fit.inside and
     Poisson factors.  Returns the number of near-ties met (None on a violation)."""
@@ -687,7 +697,7 @@ def check_real_maximization(ctx, pid, inp_name, ts, fit, eps, mu, space, instanc
             continue
         w = np.flatnonzero(tp == pm[u])
         if len(w) != 1:
-            ctx.violation(f"{sig}/not-a-timepoint", instance, f"{inp_name}: node {u} time {pm[u]!r} not in {tp}", "real")
+            report and ctx.violation(f"{sig}/not-a-timepoint", instance, f"{inp_name}: node {u} time {pm[u]!r} not in {tp}", "real")
             return None
         idx[u] = int(w[0])
     into = {u: [] for u in idx}
@@ -695,7 +705,7 @@ def check_real_maximization(ctx, pid, inp_name, ts, fit, eps, mu, space, instanc
         if e.child in idx:
             into[e.child].append(e)
             if idx[e.child] > idx[e.parent]:
-                ctx.violation(f"{sig}/child-later-than-parent", instance,
+                report and ctx.violation(f"{sig}/child-later-than-parent", instance,
                               f"{inp_name}: edge {e.id} child {e.child}@{idx[e.child]} parent {e.parent}@{idx[e.parent]}",
                               "real")
                 return None
@@ -716,7 +726,7 @@ def check_real_maximization(ctx, pid, inp_name, ts, fit, eps, mu, space, instanc
 
         _, near = argmax_set([idx[e.parent] for e in edges], G, inside, edges, factor, lambda x, y: x + y, TIE)
         if idx[u] not in near:
-            ctx.violation(f"{sig}/not-the-documented-maximiser", instance,
+            report and ctx.violation(f"{sig}/not-the-documented-maximiser", instance,
                           f"{inp_name}: node {u} got timepoint index {idx[u]}, arg-max set {near} "
                           f"(parents at {[idx[e.parent] for e in edges]})", "real")
             return None
@@ -724,8 +734,9 @@ def check_real_maximization(ctx, pid, inp_name, ts, fit, eps, mu, space, instanc
             ties += 1
         if len({e.parent for e in edges}) >= 2:
             multi += 1
-    ctx.count("real_nodes_checked", len(into))
-    ctx.count("real_nodes_with_several_parents", multi)
+    if report:
+        ctx.count("real_nodes_checked", len(into))
+        ctx.count("real_nodes_with_several_parents", multi)
     return ties
 
 
@@ -873,6 +884,27 @@ def corpus(ctx, k_sim, k_poly, small=True):
     return out
 
 
+def sparse_corpus(ctx, k):
+    """Simulated inputs with few mutations per edge and several trees, so that linear space does
+    not underflow (the domain C12 quantifies over)."""
+    from . import inputs
+    rng = np.random.default_rng(ctx.seed + 4242)
+    out = []
+    tries = 0
+    while len(out) < k and tries < 40 * k:
+        tries += 1
+        n = int(rng.integers(2, 6))
+        L = int(rng.choice([30, 60, 120]))
+        rho = float(rng.choice([0, 2e-3, 1e-2]))
+        mu = float(rng.choice([3e-4, 1e-3]))
+        ts = build.sim(n=n, L=L, rho=rho, mu=mu, Ne=50, seed=int(rng.integers(1, 2**31)))
+        if ts.num_mutations == 0:
+            continue
+        out.append(inputs.Inp(f"sparse{ctx.seed}_{tries}", strip_mutation_times(ts), mu, 50,
+                              {"contemp"} | ({"multitree"} if ts.num_trees > 1 else set())))
+    return out
+
+
 def ts_summary(ts):
     return {"nodes": ts.num_nodes, "edges": ts.num_edges, "trees": ts.num_trees, "mutations": ts.num_mutations,
             "samples": ts.num_samples}
@@ -901,3 +933,80 @@ def ts_from_instance(d):
     tables.build_index()
     tables.compute_mutation_parents()
     return tables.tree_sequence()
+
+
+# =========================================================================================
+# ProbSpace cases -> the real primitive operations of both classes (C12)
+# =========================================================================================
+def class_value(v, log):
+    tag = v[0]
+    if tag == "N":
+        return float("nan")
+    if log:
+        return {"NI": -math.inf, "PI": math.inf}.get(tag, None) if tag != "F" else math.log(v[1] / v[2])
+    return {"Z": 0.0, "I": math.inf}.get(tag, None) if tag != "P" else v[1] / v[2]
+
+
+def same_value(got, want, log):
+    if math.isnan(want):
+        return math.isnan(got)
+    if math.isinf(want) or want == 0.0:
+        return got == want
+    if log:
+        return abs(got - want) <= 1e-12 * max(1.0, abs(want))
+    return abs(got - want) <= 1e-12 * abs(want)
+
+
+def prob_objects(G):
+    key = ("po", G)
+    if key not in _CACHE:
+        _, discrete, _ = tsd()
+        ts = tree_ts([2, 2, -1], [0, 0, 1], [0, 0, 0], 1, {0, 1})
+        tp = np.arange(G, dtype=float)
+        _CACHE[key] = {LIN: discrete.Likelihoods(ts, tp, 1.0, eps=1e-6), LOG: discrete.LogLikelihoods(ts, tp, 1.0, eps=1e-6)}
+    return _CACHE[key]
+
+
+def replay_prob_case(ctx, pid, case):
+    """One ProbSpace case into the real method of Likelihoods and of LogLikelihoods."""
+    _, _, NodeTimeValues = tsd()
+    op, flag = case["op"], bool(case["flag"])
+    objs = prob_objects(case["G"])
+    for space, args_key, res_key in ((LIN, "args", "lin"), (LOG, "largs", "log")):
+        log = space == LOG
+        obj = objs[space]
+        x = np.array([class_value(v, log) for v in case[args_key]], dtype=float)
+        want = [class_value(v, log) for v in case[res_key]]
+        try:
+            with np.errstate(all="ignore"):
+                if op == "combine":
+                    got = obj.combine(x[:1].copy(), x[1:2].copy())
+                elif op == "ratio":
+                    got = obj.ratio(x[:1].copy(), x[1:2].copy(), div_0_null=flag)
+                elif op == "rowsum_lower_tri":
+                    got = obj.rowsum_lower_tri(x.copy())
+                elif op == "rowsum_upper_tri":
+                    got = obj.rowsum_upper_tri(x.copy())
+                elif op == "marginalize":
+                    got = [obj.marginalize(x.copy())]
+                elif op == "scale_geometric":
+                    got = obj.scale_geometric(0.5 if flag else 1.0, x.copy())
+                elif op == "force_space":
+                    ntv = NodeTimeValues(1, np.array([0]), np.arange(1, dtype=float))
+                    ntv.grid_data[:] = class_value(case["args"][0], False)
+                    ntv.force_probability_space(LOG)
+                    if not log:
+                        ntv.force_probability_space(LIN)
+                    got = ntv.grid_data[0]
+                else:
+                    raise harness.MachineryError(f"unknown op {op}")
+            got = [float(g) for g in np.atleast_1d(np.asarray(got, dtype=float))]
+        except harness.MachineryError:
+            raise
+        except Exception as ex:  # noqa: BLE001
+            ctx.violation(f"{pid}/{op}/{space}/{type(ex).__name__}", case, f"{op} raised {type(ex).__name__}: {ex}", "ops")
+            continue
+        if len(got) != len(want) or not all(same_value(g, w, log) for g, w in zip(got, want)):
+            ctx.violation(f"{pid}/{op}/{space}/differs-from-specification", case,
+                          f"{type(obj).__name__}.{op}({x.tolist()}, flag={flag}) = {got}, specification {want}", "ops")
+        ctx.evaluations += 1
